@@ -5,6 +5,10 @@ import json, sys
 ALL = ["C%02d" % i for i in range(1, 21)]
 
 CHECKS = {
+ "C17": dict(level="model_checking", design="§3 C17, §0.1 E1 over environment answers",
+   technique="stateless model checking of the reader against a nondeterministic io.Reader environment: every Read is a choice point, all schedules with <=B deviations (every single split point, zero-length reads, data-with-EOF) are enumerated on the real readers and compared with the all-at-once result",
+   text="For every corpus document of every format the real reader is run under every delivery schedule within the deviation bound (quick: every single split point; thorough: 2 deviations for <=400-byte and 3 for <=60-byte documents), under 20 fixed schedules, and on generated large documents whose CR LF pairs straddle 4096/8192/65536 boundaries. The canonical dump (or the fact of failing) must equal the all-at-once result.",
+   note="Trusted: Go toolchain/stdlib (bufio.Scanner, encoding/xml), astits. Bound: deviation bound as stated; 'random chunk sequences' are replaced by the exhaustive bounded enumeration plus fixed schedules."),
  "C16": dict(level="exploration", design="§3 C16",
    technique="exhaustive sweep of instants (every unit step of a range, every unit boundary +-1ns, every frame boundary) through the public writers and readers, batched; rendering parsed by the harness and compared with floor; read back; second write compared byte for byte",
    text="Quick: every ms of the first 20 min and around the listed hour marks, all boundary nudges; thorough: every millisecond of the day for SRT/WebVTT/TTML, every centisecond +-1ns for SSA, every frame boundary +-1ns of the day for STL at 25/30 fps. Each instant is checked for grammar, floor value, monotonicity, reader inverse and write idempotence. Nothing sampled.",
